@@ -754,45 +754,26 @@ func execC09(c c09Case) vkit.Result {
 		return res
 	}
 
-	// isolate the cause: canonical build with one deviation at a time
-	type delta struct {
-		kind  string // signature part
+	// Isolate the cause. The variant differs from the canonical build by a set of
+	// deviations (order; per span: path, field order; per numeric field: wire form).
+	// First every deviation is tried alone on top of the canonical build; if none
+	// reproduces the difference, the full set is reduced to a 1-minimal failing
+	// subset (every member is necessary) and each member is reported.
+	type dev struct {
+		kind  string // order | path | field-order | wire
+		span  int
+		field string
+		wire  string // signature label of the wire form
+		path  string // signature label of the span's path
 		desc  string
-		ds    []c09Delivery
-		field string // field-level deltas: the field, its wire label and path label
-		wire  string
-		path  string
 	}
-	// signature: C09/<aspect>/<wire>/<reader>/<path> for rule-match, rate and keep differences (one
-	// coercion defect per wire type), C09/key/<reader>/<wire>/<path> for sample-key differences (one
-	// stringification defect per kind of key field)
-	sigFor := func(asp, kind string) string {
-		parts := strings.Split(kind, "/")
-		if len(parts) == 3 && !strings.HasPrefix(kind, "path/") {
-			if asp == "key" {
-				parts[0], parts[1] = parts[1], parts[0]
-			} else {
-				parts = append([]string{c09Family(parts[1])}, parts...)
-			}
-		}
-		return "C09/" + asp + "/" + strings.Join(parts, "/")
-	}
-	var deltas []delta
+	var devs []dev
 	identity := true
 	for i, p := range perm {
 		identity = identity && i == p
 	}
 	if !identity {
-		var ds []c09Delivery
-		for _, i := range perm {
-			ds = append(ds, c09Canonical(i))
-		}
-		deltas = append(deltas, delta{kind: "reordered", desc: fmt.Sprintf("canonical encodings delivered in order %v", perm), ds: ds})
-	}
-	with := func(i int, d c09Delivery) []c09Delivery {
-		ds := append([]c09Delivery{}, canon...)
-		ds[i] = d
-		return ds
+		devs = append(devs, dev{kind: "order", desc: fmt.Sprintf("spans delivered in order %v", perm)})
 	}
 	for i, s := range c.Spans {
 		v := full(i)
@@ -801,77 +782,217 @@ func execC09(c c09Case) vkit.Result {
 			pathName += "+peer-hop"
 		}
 		if s.Path != "json-batch" || s.PeerHop {
-			deltas = append(deltas, delta{kind: "path/" + pathName, desc: fmt.Sprintf("span %d sent as %s with numbers as float64 / canonical literals", i, pathName),
-				ds: with(i, c09Delivery{Idx: i, Path: s.Path, PeerHop: s.PeerHop})})
+			devs = append(devs, dev{kind: "path", span: i, path: pathName, desc: fmt.Sprintf("span %d sent as %s (numbers as float64 / canonical literals)", i, pathName)})
 		}
-		if s.Reverse {
-			deltas = append(deltas, delta{kind: "field-order", desc: fmt.Sprintf("span %d with its fields in reverse order", i), ds: with(i, c09Delivery{Idx: i, Path: "json-batch", Reverse: true})})
+		if s.Reverse && len(s.Fields) > 0 {
+			devs = append(devs, dev{kind: "field-order", span: i, path: pathName, desc: fmt.Sprintf("span %d with its fields in reverse order", i)})
 		}
 		jsonEnc := strings.HasPrefix(s.Path, "json")
 		for _, f := range s.Fields {
 			if f.V.Kind != "num" {
 				continue
 			}
-			d := c09Delivery{Idx: i, Path: s.Path, PeerHop: s.PeerHop, JLit: map[string]int{}, MW: map[string]string{}}
 			var wire string
 			if jsonEnc {
 				if v.JLit[f.Name] == 0 {
 					continue
 				}
-				d.JLit[f.Name] = v.JLit[f.Name]
 				wire = "json-literal-" + c09JSONVariantNames[v.JLit[f.Name]]
 			} else {
 				if v.MW[f.Name] == "" || v.MW[f.Name] == "f64" {
 					continue
 				}
-				d.MW[f.Name] = v.MW[f.Name]
 				wire = c09MsgpackNum(f.V.Num, v.MW[f.Name]).shape()
 			}
-			deltas = append(deltas, delta{kind: fmt.Sprintf("%s/%s/%s", wire, c09Readers(c.Sampler, f.Name), pathName),
-				desc: fmt.Sprintf("span %d field %q = %s encoded as %s on %s", i, f.Name, f.V.Num, wire, pathName), ds: with(i, d),
-				field: f.Name, wire: wire, path: pathName})
+			devs = append(devs, dev{kind: "wire", span: i, field: f.Name, wire: wire, path: pathName,
+				desc: fmt.Sprintf("span %d field %q = %s encoded as %s on %s", i, f.Name, f.V.Num, wire, pathName)})
 		}
 	}
-	blamed := 0
-	for _, dl := range deltas {
-		o := build(dl.ds)
-		if asp := c09Aspect(a, o, deterministicKeep); asp != "" {
-			blamed++
-			kind := dl.kind
-			if dl.field != "" && asp != "key" && c.Sampler.Kind == "rules" {
-				// which of the conditions reading the field flips on its own? (one-condition samplers)
-				if culprits := c09Culprits(rig, c, dl.field, canon, dl.ds); culprits != "" {
-					kind = fmt.Sprintf("%s/%s/%s", dl.wire, culprits, dl.path)
+	// compose builds the delivery list that applies exactly the deviations in set
+	compose := func(set []bool) []c09Delivery {
+		per := make([]c09Delivery, len(c.Spans))
+		for i := range per {
+			per[i] = c09Delivery{Idx: i, Path: "json-batch", JLit: map[string]int{}, MW: map[string]string{}}
+		}
+		order := c09Iota(len(c.Spans))
+		for k, d := range devs {
+			if !set[k] {
+				continue
+			}
+			v := full(d.span)
+			switch d.kind {
+			case "order":
+				order = perm
+			case "path":
+				per[d.span].Path, per[d.span].PeerHop = v.Path, v.PeerHop
+			case "field-order":
+				per[d.span].Reverse = true
+			case "wire":
+				// a wire form only exists on the span's own path
+				per[d.span].Path, per[d.span].PeerHop = v.Path, v.PeerHop
+				per[d.span].JLit[d.field] = v.JLit[d.field]
+				per[d.span].MW[d.field] = v.MW[d.field]
+			}
+		}
+		var out []c09Delivery
+		for _, i := range order {
+			out = append(out, per[i])
+		}
+		return out
+	}
+	only := func(k int) []bool {
+		set := make([]bool, len(devs))
+		set[k] = true
+		return set
+	}
+	report := func(k int, base, with []c09Delivery, o c09Outcome, asp string, combined bool) {
+		d := devs[k]
+		var sig string
+		switch d.kind {
+		case "order":
+			sig = "C09/" + asp + "/reordered"
+		case "path":
+			sig = "C09/" + asp + "/path/" + d.path
+		case "field-order":
+			sig = "C09/" + asp + "/field-order/" + d.path
+		default:
+			// which reader of the field changes its answer? probe each on the deviating span alone
+			var base1, with1 c09Delivery
+			for _, x := range base {
+				if x.Idx == d.span {
+					base1 = x
 				}
 			}
-			res.Violate(sigFor(asp, kind),
-				"sampler %s; trace %s: canonical all-JSON build -> %s; %s -> %s", c09EmitConfig(c.Sampler), c09TraceString(c), a, dl.desc, o)
+			for _, x := range with {
+				if x.Idx == d.span {
+					with1 = x
+				}
+			}
+			readerSets := c09Culprits(rig, c, d.span, d.field, asp == "key", base1, with1)
+			if len(readerSets) == 0 {
+				readerSets = []string{c09Readers(c.Sampler, d.field)}
+			}
+			how := "alone on top of the canonical build"
+			suffix := ""
+			if combined {
+				suffix = "/in-combination"
+				how = "as a necessary member of a minimal set of deviations"
+			}
+			for _, readers := range readerSets {
+				if asp == "key" {
+					// one stringification defect per kind of key field
+					sig = fmt.Sprintf("C09/key/%s/%s/%s", readers, d.wire, d.path)
+				} else {
+					// one coercion defect per family of readers and wire type
+					sig = fmt.Sprintf("C09/%s/%s/%s/%s/%s", asp, c09Family(readers), d.wire, readers, d.path)
+				}
+				res.Violate(sig+suffix, "sampler %s; trace %s: canonical all-JSON build -> %s; %s (%s) -> %s; reader whose answer changes on that span: %s", c09EmitConfig(c.Sampler), c09TraceString(c), a, d.desc, how, o, readers)
+			}
+			return
+		}
+		how := "alone on top of the canonical build"
+		if combined {
+			sig += "/in-combination"
+			how = "as a necessary member of a minimal set of deviations"
+		}
+		res.Violate(sig, "sampler %s; trace %s: canonical all-JSON build -> %s; %s (%s) -> %s", c09EmitConfig(c.Sampler), c09TraceString(c), a, d.desc, how, o)
+	}
+	blamed := 0
+	for k := range devs {
+		ds := compose(only(k))
+		o := build(ds)
+		if asp := c09Aspect(a, o, deterministicKeep); asp != "" {
+			blamed++
+			report(k, canon, ds, o, asp, false)
 		}
 	}
 	if blamed == 0 {
-		var kinds []string
-		for _, dl := range deltas {
-			kinds = append(kinds, dl.kind)
+		set := make([]bool, len(devs))
+		for k := range set {
+			set[k] = true
 		}
-		sort.Strings(kinds)
-		res.Violate(fmt.Sprintf("C09/%s/combination/%s", aspect, strings.Join(kinds, "&")),
-			"sampler %s; trace %s: canonical all-JSON build -> %s; variant build -> %s; no single deviation reproduces the difference", c09EmitConfig(c.Sampler), c09TraceString(c), a, b)
+		if o := build(compose(set)); c09Aspect(a, o, deterministicKeep) == "" {
+			// the composed full set is the variant itself; if it does not reproduce, refinery answered
+			// differently for the same input
+			res.Violate("C09/"+aspect+"/not-reproducible", "sampler %s; trace %s: canonical -> %s; variant -> %s; the same variant built again -> %s", c09EmitConfig(c.Sampler), c09TraceString(c), a, b, o)
+			return res
+		}
+		for k := range set {
+			set[k] = false
+			if o := build(compose(set)); c09Aspect(a, o, deterministicKeep) == "" {
+				set[k] = true // needed
+			}
+		}
+		withAll := compose(set)
+		oAll := build(withAll)
+		asp := c09Aspect(a, oAll, deterministicKeep)
+		if asp == "" {
+			asp = aspect
+		}
+		for k := range set {
+			if !set[k] {
+				continue
+			}
+			set[k] = false
+			base := compose(set)
+			set[k] = true
+			report(k, base, withAll, oAll, asp, true)
+		}
 	}
 	return res
 }
 
-// c09Culprits probes every condition that names the field with a sampler consisting of that
-// condition alone (keep rule) and returns the readers whose verdict differs between the
-// canonical build and the one-deviation build.
-func c09Culprits(rig *wireRig, c c09Case, field string, canon, dev []c09Delivery) string {
+// c09Culprits probes every reader of the field on its own - a rules sampler consisting of one
+// condition (keep rule), or a dynamic sampler keyed on one field reference - against a trace that
+// consists of the deviating span alone, once in the base encoding and once in the deviating one,
+// and returns the readers whose answer differs.
+func c09Culprits(rig *wireRig, c c09Case, span int, field string, keyAspect bool, base, dev c09Delivery) []string {
+	pc := c
+	pc.Spans = []c09Span{c.Spans[span]}
+	pc.Root = -1
+	if c.Root == span {
+		pc.Root = 0
+	}
+	pc.Perm = []int{0}
+	base.Idx, dev.Idx = 0, 0
 	set := map[string]bool{}
+	tried := map[string]bool{}
+	probeWith := func(label string, probe c09Sampler) {
+		key := label + c09EmitConfig(probe)
+		if tried[key] || set[label] {
+			return
+		}
+		tried[key] = true
+		choice, rejected := c09Load(c09EmitConfig(probe))
+		if rejected != "" {
+			return
+		}
+		pc.Sampler = probe
+		x := c09Build(rig, pc, choice, []c09Delivery{base})
+		y := c09Build(rig, pc, choice, []c09Delivery{dev})
+		if x.Err == "" && y.Err == "" && (x.Reason != y.Reason || x.Key != y.Key || x.Rate != y.Rate) {
+			set[label] = true
+		}
+	}
+	dyn := func(fields []string, label string) {
+		for _, f := range fields {
+			if f == field {
+				probeWith(label+"(field)", c09Sampler{Kind: "dynamic", DynFields: []string{f}})
+			} else if f == "root."+field {
+				probeWith(label+"(root.field)", c09Sampler{Kind: "dynamic", DynFields: []string{f}})
+			}
+		}
+	}
+	dyn(c.Sampler.DynFields, "dynamic-key")
 	for _, r := range c.Sampler.Rules {
+		dyn(r.DynFields, "rule-dynamic-key")
+		if keyAspect {
+			continue
+		}
 		for _, cond := range r.Conds {
-			names := false
 			label := ""
 			for _, f := range cond.Fields {
 				if f == field || f == "root."+field {
-					names = true
 					dt := cond.Datatype
 					if dt == "" {
 						dt = "untyped"
@@ -883,21 +1004,10 @@ func c09Culprits(rig *wireRig, c c09Case, field string, canon, dev []c09Delivery
 					label = fmt.Sprintf("%s%s:%s", rp, cond.Op, dt)
 				}
 			}
-			if !names || set[label] {
+			if label == "" {
 				continue
 			}
-			probe := c09Sampler{Kind: "rules", Rules: []c09Rule{{Scope: r.Scope, Conds: []c09Cond{cond}, Action: "keep"}}}
-			choice, rejected := c09Load(c09EmitConfig(probe))
-			if rejected != "" {
-				continue
-			}
-			pc := c
-			pc.Sampler = probe
-			x := c09Build(rig, pc, choice, canon)
-			y := c09Build(rig, pc, choice, dev)
-			if x.Err == "" && y.Err == "" && x.Reason != y.Reason {
-				set[label] = true
-			}
+			probeWith(label, c09Sampler{Kind: "rules", Rules: []c09Rule{{Scope: r.Scope, Conds: []c09Cond{cond}, Action: "keep"}}})
 		}
 	}
 	var out []string
@@ -905,7 +1015,7 @@ func c09Culprits(rig *wireRig, c c09Case, field string, canon, dev []c09Delivery
 		out = append(out, k)
 	}
 	sort.Strings(out)
-	return strings.Join(out, "+")
+	return out
 }
 
 func c09TraceString(c c09Case) string {
